@@ -117,6 +117,9 @@ func newStdSvc(v stdVariant) (*stdSvc, error) {
 			{"Proxy-A.Corp.test", ip(1)}, {"Proxy-B.Corp.test", ip(2)}, {"Proxy-C.Corp.test", ip(3)}, {"Hop-B.Corp.test", ip(21)},
 			{"hop-a.test", ip(20)}, {"hop-b.test", ip(21)}, {"hop-c.test", ip(25)},
 			{"ua-a.test", ip(10)}, {"ua-b.test", ip(11)}, {"foreign.test", ip(60)},
+			// elements that are only ever known by name: nothing comes from their
+			// addresses and no message writes them (C06)
+			{"natted-a.test", ip(27)}, {"natted-b.test", ip(28)},
 		},
 		GlobalHosts: [][2]string{{"hop-a.test", ip(99)}, {"global-hop.test", ip(21)}},
 	}
@@ -197,6 +200,9 @@ func newStdSvc(v stdVariant) (*stdSvc, error) {
 	for i := 0; i < 4; i++ {
 		s.uas3 = append(s.uas3, add(in.hub.udpEP(fmt.Sprintf("ua%d^", i), ip(10+i), s.high)))
 		add(in.hub.tcpEP(fmt.Sprintf("ua%d^-tcp", i), ip(10+i), s.high))
+	}
+	for _, d := range []int{27, 28} {
+		add(in.hub.udpEP(fmt.Sprintf("natted%d-udp", d), ip(d), 5070))
 	}
 	for _, d := range []int{20, 21, 22, 24, 25, 60, 99} {
 		for _, p := range []int{5060, 5070, 5061, s.high} {
